@@ -34,7 +34,7 @@ func init() {
 		Level: "exploration",
 		Rule: "a chart is a file set: baseline (Chart.yaml v2, values.yaml, one template) plus every conflict-free subset of <=2 (quick) / <=3 (thorough) deviations from a table of " +
 			fmt.Sprint(len(devTable)) + " (apiVersion v1 +requirements.yaml/.lock, all optional metadata, declared dependencies, Chart.lock, schema, 5 file-name shapes, 5 contents x {file,template,values} + 3 x Chart.yaml, " +
-			"4 dependency layouts, 28 .helmignore rule sets with " + fmt.Sprint(len(probeNames)) + " probe files); each runs LoadFiles->Save->LoadFile, LoadFiles->SaveDir->LoadDir, dir->LoadDir vs dir->Package->LoadFile, dir->LoadDir vs own-tar->LoadArchive; " +
+			"4 dependency layouts, " + fmt.Sprint(ruleSetCount()) + " .helmignore rule sets with " + fmt.Sprint(len(probeNames)) + " probe files); each runs LoadFiles->Save->LoadFile, LoadFiles->SaveDir->LoadDir, dir->LoadDir vs dir->Package->LoadFile, dir->LoadDir vs own-tar->LoadArchive; " +
 			"plus invalid name/version x <=1 deviation (one .helmignore set only) x {Save, Package, Package --version}. distinct = (resulting file set) / (invalid tuple); every case is non-trivial: it reaches the tar writer or a validation error",
 		Run:    run,
 		Replay: replay,
@@ -42,7 +42,7 @@ func init() {
 			"Linux file system semantics (byte file names, '/' separator); /var/tmp scratch directory per worker process",
 			"'the same chart' is judged on what the statement lists: metadata fields, raw values.yaml bytes, parsed values, schema bytes, lock (time with Equal), templates and files by name byte for byte, dependency tree by chart name; order of files/dependencies and Chart.Raw other than values.yaml are not compared (Chart.yaml is re-serialised by design)",
 			"nil, empty list, empty map and empty string are the same value of an optional metadata field",
-			".helmignore rule alphabet: literals, '*', '?', leading '/', trailing '/', comment, blank line - at most two rules per file; negation, character classes, escapes and '**' are not generated; the loader's built-in rule templates/.?* is part of the reference matcher",
+			".helmignore rule alphabet: literals, '*', '?', leading '/', trailing '/' (also both on one rule, and leading '/' with a glob), comment, blank line - at most two rules per file; negation, character classes, escapes and '**' are not generated; the loader's built-in rule templates/.?* is part of the reference matcher",
 			"invalid names are ../x, a/b and the empty string, invalid versions 1.x and the empty string, as the property lists them; the names '.' and '..' are counted as invalid too (they relocate the archive entries like ../x does) and are reported under keys of their own",
 		},
 		RequiredFloors: []string{"roundtrip-equal:save", "roundtrip-equal:savedir", "roundtrip-equal:package", "dir-vs-archive-equal", "ignored-file-kept-out-of-archive",
@@ -720,7 +720,7 @@ func run(c *core.Ctx) {
 	}
 	c.Bound("max_deviations", fmt.Sprint(k))
 	c.Bound("deviation_table", fmt.Sprint(len(devTable)))
-	c.Bound("helmignore_rule_sets", "28 (all non-empty subsets of size <=2 of 7 rules) + none")
+	c.Bound("helmignore_rule_sets", fmt.Sprintf("%d (all non-empty subsets of size <=2 of %d rules) + none", ruleSetCount(), len(ruleAlphabet)))
 	samples := 0
 
 	if c.Only == "" || c.Only == "rt" {
